@@ -149,41 +149,85 @@ Proof.
   destruct (aexec c (e1, ah)) as [[? ?]|]; [discriminate|]. destruct (aexec c (e2, ah)) as [[? ?]|]; [contradiction|congruence].
 Qed.
 
-Lemma estimator_pre_safe2 body ret : safe 3 body = true -> safe 2 (seq (estimator_fit_pre 2 body ret)) = true.
+Lemma aexec_seq_app : forall l1 l2 s, aexec (seq (l1 ++ l2)) s =
+  match aexec (seq l1) s with Some s1 => aexec (seq l2) s1 | None => None end.
 Proof.
-  unfold safe, safe_with. intros H. cbn [estimator_fit_pre List.seq map app seq Nat.add].
-  cbn [aexec]. cbn [aread_cell aenv0 repeat map arg_aref nth upd].
-  match goal with |- context [aexec body ?s] =>
-    assert (Hx : same_result (aexec body s) (aexec body (aenv0 (repeat false 3), []))) end.
-  { apply aexec_ext. intros x. do 4 (destruct x as [|x]; [reflexivity|]). unfold call_env, aenv0. simpl. destruct x; reflexivity. }
-  unfold same_result in Hx.
-  destruct (aexec body (aenv0 (repeat false 3), [])) as [[e2 a2]|]; [|discriminate].
-  match goal with |- context [aexec body ?s] => destruct (aexec body s) as [[e1 a1]|] end; [reflexivity|contradiction].
+  induction l1 as [|c l1 IH]; intros l2 s; simpl.
+  - destruct s; reflexivity.
+  - destruct s as [e ah]. simpl. destruct (aexec c (e, ah)) as [s1|]; [apply IH|reflexivity].
 Qed.
-Lemma estimator_pre_safe3 body ret : safe 4 body = true -> safe 2 (seq (estimator_fit_pre 3 body ret)) = true.
+
+Definition getters (a k : nat) : list cmd := map (fun i => ListGet (10 + i) 0 i) (List.seq a k).
+
+Lemma getters_run : forall k a (e : aenv), e 0 = AProt ->
+  exists e', aexec (seq (getters a k)) (e, []) = Some (e', []) /\
+    (forall x, x < 10 + a -> e' x = e x) /\ (forall j, j < k -> e' (10 + a + j) = AProt).
 Proof.
-  unfold safe, safe_with. intros H. cbn [estimator_fit_pre List.seq map app seq Nat.add].
-  cbn [aexec]. cbn [aread_cell aenv0 repeat map arg_aref nth upd].
+  induction k; intros a e H0; simpl.
+  - exists e. split; [reflexivity|]. split; auto. intros j Hj; lia.
+  - unfold getters in *. simpl. rewrite H0. simpl.
+    destruct (IHk (S a) (upd e (10 + a) AProt)) as (e' & E & Hlow & Hhigh).
+    { unfold upd. destruct (Nat.eqb_spec 0 (10 + a)); [lia|exact H0]. }
+    exists e'. split; [exact E|]. split.
+    + intros x Hx. rewrite Hlow by lia. unfold upd. destruct (Nat.eqb_spec x (10 + a)); [lia|reflexivity].
+    + intros j Hj. destruct j.
+      * rewrite Nat.add_0_r. rewrite Hlow by lia. unfold upd. rewrite Nat.eqb_refl. reflexivity.
+      * assert (Hj' : j < k) by lia. specialize (Hhigh j Hj'). replace (10 + S a + j) with (10 + a + S j) in Hhigh by lia. exact Hhigh.
+Qed.
+
+Lemma nth_error_map_seq (f : nat -> nat) : forall n a j, nth_error (map f (List.seq a n)) j = if j <? n then Some (f (a + j)) else None.
+Proof.
+  induction n; intros a j; simpl.
+  - destruct j; reflexivity.
+  - destruct j; simpl; [rewrite Nat.add_0_r; reflexivity|]. rewrite IHn. replace (S a + j) with (a + S j) by lia.
+    change (S j <? S n) with (j <? n). reflexivity.
+Qed.
+
+Lemma aenv0_repeat_false n x : aenv0 (repeat false n) x = if x <? n then AProt else ANull.
+Proof.
+  unfold aenv0. revert x; induction n; intros x; simpl.
+  - destruct x; reflexivity.
+  - destruct x; simpl; [reflexivity|]. rewrite IHn. reflexivity.
+Qed.
+
+Lemma estimator_pre_safe nattr body ret : safe (S nattr) body = true -> safe 2 (seq (estimator_fit_pre nattr body ret)) = true.
+Proof.
+  unfold safe, safe_with. intros H. unfold estimator_fit_pre. fold (getters 0 nattr).
+  rewrite aexec_seq_app.
+  destruct (getters_run nattr 0 (aenv0 (repeat false 2))) as (e' & E & Hlow & Hhigh); [reflexivity|].
+  rewrite E. simpl.
   match goal with |- context [aexec body ?s] =>
-    assert (Hx : same_result (aexec body s) (aexec body (aenv0 (repeat false 4), []))) end.
-  { apply aexec_ext. intros x. do 5 (destruct x as [|x]; [reflexivity|]). unfold call_env, aenv0. simpl. destruct x; reflexivity. }
+    assert (Hx : same_result (aexec body s) (aexec body (aenv0 (repeat false (S nattr)), []))) end.
+  { apply aexec_ext. intros x. rewrite aenv0_repeat_false. unfold call_env. destruct x; simpl.
+    - rewrite Hlow by lia. reflexivity.
+    - rewrite nth_error_map_seq. change (S x <? S nattr) with (x <? nattr).
+      destruct (x <? nattr) eqn:Ex; [|reflexivity]. apply Nat.ltb_lt in Ex. exact (Hhigh x Ex). }
   unfold same_result in Hx.
-  destruct (aexec body (aenv0 (repeat false 4), [])) as [[e2 a2]|]; [|discriminate].
+  destruct (aexec body (aenv0 (repeat false (S nattr)), [])) as [[e2 a2]|]; [|discriminate].
   match goal with |- context [aexec body ?s] => destruct (aexec body s) as [[e1 a1]|] end; [reflexivity|contradiction].
 Qed.
 
-(* est.fit_transform(tensor) for ANY decomposition body accepted by `safe`: of the caller's heap only the receiver
-   object changes (its decomposition_ attribute); the options it holds, the tensor and all their aliases do not *)
-Theorem estimator_fit_frame : forall (nattr : nat) (body : cmd) (ret : var), nattr = 2 \/ nattr = 3 ->
+Lemma estimator_pre_assigns nattr body ret : assigns 0 (seq (estimator_fit_pre nattr body ret)) = false.
+Proof.
+  unfold estimator_fit_pre.
+  assert (G : forall l rest, assigns 0 (seq rest) = false -> assigns 0 (seq (map (fun i => ListGet (10 + i) 0 i) l ++ rest)) = false).
+  { induction l; intros rest Hr; simpl; auto. }
+  apply G. reflexivity.
+Qed.
+
+(* est.fit_transform(tensor) for ANY number of option attributes and ANY decomposition body accepted by `safe`: of the
+   caller's heap only the receiver object changes (its decomposition_ attribute); the options it holds, the tensor and
+   all their aliases do not *)
+Theorem estimator_fit_frame : forall (nattr : nat) (body : cmd) (ret : var),
   safe (S nattr) body = true ->
   forall (self X : ref) (h0 : heap) (o : nat), o < length h0 -> target self <> Some o ->
   nth_error (snd (exec (sk_estimator_fit nattr body ret) (env0 [self; X], h0))) o = nth_error h0 o.
 Proof.
-  intros nattr body ret Hn Hs self X h0 o Ho Ht. unfold sk_estimator_fit.
+  intros nattr body ret Hs self X h0 o Ho Ht. unfold sk_estimator_fit.
   change [ListSet 0 nattr 20] with (map (fun p : nat * var => ListSet 0 (fst p) (snd p)) [(nattr, 20)]).
   apply (method_frame (estimator_fit_pre nattr body ret) [(nattr, 20)] [self; X] h0); auto.
-  - destruct Hn; subst; [apply estimator_pre_safe2|apply estimator_pre_safe3]; exact Hs.
-  - destruct Hn; subst; reflexivity.
+  - apply estimator_pre_safe. exact Hs.
+  - apply estimator_pre_assigns.
 Qed.
 
 Theorem cp_class_fit_frame : forall N sweeps fmlen rm modes (self X : ref) (h0 : heap) (o : nat),
